@@ -9,7 +9,9 @@ from props.parts import _tracksv2_gen as G
 LEAN_MODULES = ["Properties.C01V2"]
 THEOREMS = ["EngineModel.Properties.C01V2." + t for t in [
     "v2_C01_roundtrip", "v2_C01_reject", "v2_C01_total", "v2_C01_fixed_point", "v2_C01_second_write",
-    "v2_C01_representable", "v2_C01_db_create", "v2_C01_db_update", "v2_C01_db_reject"]]
+    "v2_C01_representable", "v2_C01_db_create", "v2_C01_db_update", "v2_C01_db_reject",
+    "v2_C01_table_create", "v2_C01_table_update", "v2_C01_table_second_write",
+    "v2_C01_schema_create", "v2_C01_schema_update", "v2_C01_schema_matters"]]
 ASSUMPTIONS = [
     "2.x: the Track table is modelled as a store of track_row values (tablePut: whole-second time stamps, SQL REAL "
     "for bpmAnalyzed, one-byte label prefix of the cue/loop blobs, UNIQUE(path)); the table layer itself is C18's "
@@ -21,7 +23,10 @@ ASSUMPTIONS = [
 MANIFEST_TEXT = ("Schema 2.x: for all seven versions and every snapshot, writeSnap/tablePut/readSnap (mirror of "
                  "snapshot_to_row, the row store and snapshot()) returns exactly Spec.normalize, rejects exactly the "
                  "snapshots normalize rejects (never ub), normalize is idempotent and the identity on representable "
-                 "fields; tied by differential replay of generated snapshots (snap + raw Track row + rewrite of the "
+                 "fields; total table-level statements (create / update incl. the UNIQUE(path) collision, the absent track, "
+                 "the second write on the same track) on the statement-level Track table; for each of the seven versions "
+                 "tablePut is proved equal to get∘add / get∘update of C18's table model instantiated with the column lists "
+                 "regenerated from track_table.cpp; tied by differential replay of generated snapshots (snap + raw Track row + rewrite of the "
                  "read-back) with the Spec evaluated on the real library's answers.")
 TRUSTED_EXTRA = []
 
@@ -38,6 +43,8 @@ def _case_script(c):
     else:
         L.append("mktrack t0 " + c["x"])
     c["write_line"] = {"update": 2, "collide": 2, "create": 1}[c["kind"]]
+    if c.get("skew"):
+        L.append("t2.skew t0")      # default grid / main cue made different from the adjusted ones: snapshot() must not notice
     L.append("snap t0")
     L.append("t2.row t0")
     return L
@@ -46,7 +53,7 @@ def _case_script(c):
 def _prior(rng, tier, uniq):
     p = G.gen_snapshot(rng, tier, uniq, valid_bias=1.0)
     # keep the prior acceptable whatever the generator drew
-    p["waveform"] = p["waveform"] if p.get("sample_count") and isinstance(p.get("sample_rate"), float) else b""
+    G.storable_waveform(p)
     if isinstance(p.get("sample_rate"), str):
         p["sample_rate"] = 44100.0
     return p
@@ -63,7 +70,7 @@ def gen_cases(rng, tier):
             c = rng.random()
             kind = "create" if c < 0.5 else ("update" if c < 0.93 else "collide")
             case = {"schema": sch, "store": "disk" if rng.random() < 0.15 else "mem", "kind": kind,
-                    "x": G.fmt_snapshot(x), "xd": x}
+                    "x": G.fmt_snapshot(x), "xd": x, "skew": rng.random() < 0.3}
             if kind == "update":
                 case["prior"] = _prior(rng, tier, uniq + 10 ** 6)
             if kind == "collide":
@@ -257,3 +264,45 @@ def tie(ctx):
         "divergences": divergences[:20],
         "violations": violations[:8],
     }
+
+
+def replay(ctx, hdr, body):
+    """re-run a recorded 2.x snapshot case on the library built from the working tree and on the model, and
+    judge it again: write outcome and snapshot() against Spec.normalize of the written snapshot, then the
+    second write (fixed point) if the script has one"""
+    import re
+    lines = [l for l in body if not re.match(r"^[A-Za-z_()0-9 ]{1,20}: ", l)]
+    if len(lines) < 3 or not lines[0].startswith("create schema_2_"):
+        return None
+    writes = [i for i, l in enumerate(lines) if l.startswith("mktrack t0 ") or l.startswith("update t0 ")]
+    if not writes:
+        return None
+    (_, ho, mo) = G.run_pair(runner, [lines])[0]
+    diffs = [(l, h, m) for l, h, m in zip(lines, ho, mo) if not G.same(h, m)]
+    verdict = []
+    schema = lines[0].split()[1]
+    # the case's own write is the last write before the first `snap t0`
+    first_snap = next((i for i, l in enumerate(lines) if l == "snap t0"), None)
+    w = max([i for i in writes if first_snap is None or i < first_snap], default=writes[0])
+    x = lines[w].split(" ", 2)[2]
+    spec = runner.run_model_script(["t2.spec.norm %s %s" % (schema, x)])[0]
+    collide = any(l.startswith("mktrack t1 ") for l in lines[:w])
+    if ho[w].startswith("ub "):
+        verdict.append("the write has undefined behaviour (%s)" % ho[w])
+    elif spec == "reject" or collide:
+        if not ho[w].startswith("throw "):
+            verdict.append("a snapshot the library must reject was accepted (%s)" % ho[w])
+    elif not ho[w].startswith("ok"):
+        verdict.append("a snapshot the library must accept was rejected (%s)" % ho[w])
+    elif first_snap is not None and ho[first_snap] != spec:
+        verdict.append("read-back snapshot differs from the normalised input")
+    snaps = [i for i, l in enumerate(lines) if l == "snap t0"]
+    if len(snaps) >= 2 and ho[snaps[0]].startswith("ok ") and not verdict:
+        if not ho[snaps[1] - 1].startswith("ok") and not lines[snaps[1] - 1].startswith("t2."):
+            verdict.append("writing the read-back snapshot again was not accepted (%s)" % ho[snaps[1] - 1])
+        elif ho[snaps[1]] != ho[snaps[0]]:
+            verdict.append("the read-back snapshot is not a fixed point of write/read")
+    txt = "\n".join("%s\n   impl:  %s\n   model: %s%s" % (l[:200], h[:400], m[:400], "" if G.same(h, m) else "   <-- differ")
+                    for l, h, m in zip(lines, ho, mo))
+    txt += "\nspec: " + spec[:400] + "\n" + "\n".join("ORACLE: " + v for v in verdict)
+    return (not diffs and not verdict), txt
